@@ -50,6 +50,8 @@ struct AvlTraits
     static void root_init(Root *r) { a_avl_root(r); }
     static Node *insert(Root *r, Node *n) { return a_avl_insert(r, n, tree_cmp<Node>); }
     static void remove(Root *r, Node *n) { a_avl_remove(r, n); }
+    static Node *init(Node *n, Node *par) { return a_avl_init(n, par); }
+    static void insert_adjust(Root *r, Node *n) { a_avl_insert_adjust(r, n); }
     static Node *search(Root const *r, void const *k) { return a_avl_search(r, k, tree_cmp<Node>); }
     static Node *search_probe(Root const *r, KeyProbe const *k) { return a_avl_search(r, k, probe_cmp<Node>); }
     static Node *head(Root const *r) { return a_avl_head(r); }
@@ -74,6 +76,8 @@ struct RbtTraits
     static void root_init(Root *r) { a_rbt_root(r); }
     static Node *insert(Root *r, Node *n) { return a_rbt_insert(r, n, tree_cmp<Node>); }
     static void remove(Root *r, Node *n) { a_rbt_remove(r, n); }
+    static Node *init(Node *n, Node *par) { return a_rbt_init(n, par); }
+    static void insert_adjust(Root *r, Node *n) { a_rbt_insert_adjust(r, n); }
     static Node *search(Root const *r, void const *k) { return a_rbt_search(r, k, tree_cmp<Node>); }
     static Node *search_probe(Root const *r, KeyProbe const *k) { return a_rbt_search(r, k, probe_cmp<Node>); }
     static Node *head(Root const *r) { return a_rbt_head(r); }
@@ -242,7 +246,18 @@ template <class T> struct TreeSim
         uint64_t const before = it != model.end() ? struct_hash() : 0;
         std::string const name = nm("insert");
         c.site(name.c_str());
-        Node *r = T::insert(&root, nd(id));
+        Node *r;
+        if (it == model.end() && (pick & 3) == 3)
+        { // the other documented way in: the caller descends and links the node, then asks for rebalancing
+            Node *par = nullptr, **link = &root.node;
+            while (*link) { par = *link; link = key < pool[id_of(par)].key ? &par->left : &par->right; }
+            c.site(nm("insert_adjust").c_str());
+            *link = T::init(nd(id), par);
+            T::insert_adjust(&root, nd(id));
+            r = nullptr;
+            c.st.add("probe.manual_link_then_insert_adjust");
+        }
+        else r = T::insert(&root, nd(id));
         if (it != model.end())
         {
             c.st.add("probe.duplicate_insert");
